@@ -12,7 +12,8 @@ Record case := { c_senders : nat; c_per_sender : nat;   (* chain mode: 1 sender,
                  c_overlap : bool;        (* two Receive calls in progress at once *)
                  c_restarts : nat;
                  c_spawnrace : bool;      (* the messages were sent while the actor's Started handler was still running *)
-                 c_spawn_early : bool }.  (* Spawn returned before Started had been handled *)      (* scripted panics (each delivered once, to the incarnation it kills) *)
+                 c_spawn_early : bool;    (* Spawn returned before Started had been handled *)
+                 c_anomalies : nat }.     (* children-race runs: nil entries in Context.Children(), dead letters for a nil target *)      (* scripted panics (each delivered once, to the incarnation it kills) *)
 
 (* the subsequence of sequence numbers received from sender s *)
 Definition seqs_of (s : nat) (l : list got) : list nat :=
@@ -26,7 +27,7 @@ Definition is_marker (g : got) : bool := Nat.eqb (g_from g) 9.
 Definition msgs_of (l : list got) : list got := filter (fun g => negb (is_marker g)) l.
 
 Definition oracle (c : case) : bool :=
-  negb (c_hang c) && negb (c_overlap c) && negb (c_spawn_early c) &&
+  negb (c_hang c) && negb (c_overlap c) && negb (c_spawn_early c) && Nat.eqb (c_anomalies c) 0 &&
   (if c_spawnrace c then match c_got c with g :: _ => is_marker g | [] => false end else true) &&
   Nat.eqb (length (msgs_of (c_got c))) (c_senders c * c_per_sender c) &&
   forallb g_sender_ok (c_got c) &&
@@ -42,7 +43,8 @@ Definition branches (c : case) : list nat :=
   (if Nat.ltb 4096 (c_senders c * c_per_sender c) then [2] else []) ++
   (if Nat.eqb (c_senders c) 1 && Nat.ltb 300 (c_per_sender c) then [3] else []) ++
   (if Nat.ltb 0 (c_restarts c) then [4] else []) ++
-  (if c_spawnrace c then [5] else []).
+  (if c_spawnrace c then [5] else []) ++
+  (if Nat.eqb (c_senders c) 0 then [6] else []).   (* children-race runs have no senders *)
 
 Fixpoint failing {A} (f : A -> bool) (i : nat) (l : list A) : list nat :=
   match l with [] => [] | a :: l' => (if f a then [] else [i]) ++ failing f (S i) l' end.
